@@ -393,3 +393,61 @@ func genKeySetExcluding(r *rand.Rand, maxN int, pref []string, exclude ...[]ksEn
 	}
 	return S
 }
+
+// genEarlierIssuerKeys draws the keys of the client whose assertion a kept verifier object verifies before the case's
+// issuer: RSA / P-256 keys (every one fits an algorithm of the default allow-list) that are keys neither of S nor of
+// the excluded sets, often registered under a kid string that S uses too.
+func genEarlierIssuerKeys(r *rand.Rand, S []ksEntry, exclude ...[]ksEntry) []ksEntry {
+	taken := func(pk poolKey, mine []ksEntry) bool {
+		for _, set := range append(append([][]ksEntry{S}, exclude...), mine) {
+			for _, e := range set {
+				if samePub(e.K.Public(), pk.k.Public()) {
+					return true
+				}
+			}
+		}
+		return false
+	}
+	var out []ksEntry
+	used := map[string]bool{}
+	n := 1 + r.IntN(2)
+	for i := 0; i < n; i++ {
+		var free []poolKey
+		for _, pk := range trustPool {
+			if (pk.fam == "RSA" || pk.fam == "P256") && !taken(pk, out) {
+				free = append(free, pk)
+			}
+		}
+		if len(free) == 0 {
+			break
+		}
+		// prefer the family of a key of S: the same algorithm then fits the keys of both clients
+		pk := free[r.IntN(len(free))]
+		want := poolOf(S[r.IntN(len(S))].K).fam
+		for _, f := range free {
+			if f.fam == want && r.IntN(3) != 0 {
+				pk = f
+				break
+			}
+		}
+		e := ksEntry{K: pk.k, Use: pick(r, "sig", "sig", "")}
+		if r.IntN(3) != 0 {
+			e.Kid = S[r.IntN(len(S))].Kid
+		} else {
+			e.Kid = fmt.Sprintf("p%d", r.IntN(3))
+		}
+		for used[e.Kid] {
+			e.Kid = fmt.Sprintf("p%d", r.IntN(1000))
+		}
+		used[e.Kid] = true
+		out = append(out, e)
+	}
+	if len(out) == 0 {
+		if len(exclude) > 0 {
+			// S and the subject client's keys hold all six RSA / P-256 keys of the pool: share a key with the subject client
+			return genEarlierIssuerKeys(r, S)
+		}
+		panic("c02: no key left for the earlier issuer") // S holds at most four keys
+	}
+	return out
+}
